@@ -154,7 +154,63 @@ def monitor(script, c):
     return hits
 
 
+def key_scripts(rng, tier):
+    """every octet of the master key matters: a sender whose master key differs from the receiver's in ONE bit (first, middle
+    and last octet of the cipher key part and of the salt part, for every key-size combination of the SRTP and SRTCP halves)
+    produces packets the receiver refuses.  "# K" marks an unprotect that must not return ok."""
+    out = []
+    combos = [(ICM128, ICM128), (ICM256, ICM256), (ICM128, ICM256), (ICM256, ICM128), (NULL_CIPHER, ICM128), (ICM256, NULL_CIPHER)]
+    for k, (c1, c2) in enumerate(combos):
+        kl = lambda c: 46 if c == ICM256 else 30
+        klen = max(kl(c1), kl(c2))
+        ssrc = rng.randrange(2, 1 << 32)
+        key = rand_key(rng, klen)
+        p = default_policy(rng, ssrc, rtp=cp(cipher=c1, keylen=kl(c1)), rtcp=cp(cipher=c2, keylen=kl(c2)), keys=[(key, b"")])
+        L = [p.line(1), "create 1 1"]
+        pos = sorted({0, 7, 15, 16, klen - 15, klen - 14, klen - 13, klen - 1, 29, 30 if klen > 30 else 0, 31 if klen > 31 else 0})
+        if tier != "quick":
+            pos = list(range(klen))
+        sid = 2
+        for j, o in enumerate(pos):
+            k2 = bytearray(key); k2[o] ^= 1 << rng.randrange(8)
+            L.append(p.line(2, keys=[(bytes(k2), b"")]))
+            L.append(f"create {sid:x} 2")
+            pkt = rtp_packet(ssrc, 10 + j, payload=rand_key(rng, 20))
+            L.append(pkt_op("protect", sid, pkt, extra=40)); a = len(L)
+            L.append(pkt_op("unprotect", 1, f"@{a:x}", cap=100)); L.append("# K")
+            rp = rtcp_packet(ssrc, rand_key(rng, 16))
+            L.append(pkt_op("protect_rtcp", sid, rp, extra=40)); a = len(L)
+            L.append(pkt_op("unprotect_rtcp", 1, f"@{a:x}", cap=100)); L.append("# K")
+            L.append(f"dealloc {sid:x}")
+        # control: the genuine key is accepted
+        L.append(p.line(2)); L.append("create 2 2")
+        pkt = rtp_packet(ssrc, 500, payload=b"genuine")
+        L.append(pkt_op("protect", 2, pkt, extra=40)); a = len(L)
+        L.append(pkt_op("unprotect", 1, f"@{a:x}", cap=100)); L.append("# G")
+        L += ["dealloc 1", "dealloc 2"]
+        out.append((f"keybits-{k}", "\n".join(L) + "\n"))
+    return out
+
+
+def key_monitor(script, c):
+    hits = []
+    sl = script.split("\n")
+    out = {int(l.split()[0]): l.split() for l in c if l.strip()}
+    for i, l in enumerate(sl, 1):
+        if l.strip() == "# K":
+            o, src = out.get(i - 1, []), out.get(i - 2, [])
+            if len(o) > 2 and len(src) > 2 and int(src[2], 16) == 0 and int(o[2], 16) == 0:
+                hits.append({"what": "a packet protected under a master key that differs from the receiver's in one bit was accepted",
+                             "signature": "key-bit-ignored:" + o[1], "detail": f"line {i-1}; sender policy line {sl[i-5][:60] if i > 5 else ''}"}); break
+        elif l.strip() == "# G":
+            o = out.get(i - 1, [])
+            if len(o) > 2 and int(o[2], 16) != 0:
+                hits.append({"what": "control: a packet protected under the receiver's own master key was refused", "signature": "key-control", "detail": f"line {i-1}: {o[2]}"}); break
+    return hits
+
+
 def families(tier, seed):
     rng = random.Random(seed * 1000 + 4)
     return [Family("mutations", scripts(rng, tier), monitor=monitor),
+            Family("master-key-bits", key_scripts(random.Random(seed * 1000 + 204), tier), monitor=key_monitor),
             Family("gcm-mutations", with_aead(scripts, random.Random(seed * 1000 + 104), tier, n=(5 if tier == "quick" else 60)), monitor=monitor, config="openssl")]
